@@ -36,6 +36,7 @@ from pdfminer.pdfexceptions import (
 from pdfminer.pdfparser import PDFParser, PDFStreamParser, PDFSyntaxError
 from pdfminer.pdftypes import (
     DecipherCallable,
+    PDFObjRef,
     PDFStream,
     decipher_all,
     dict_value,
@@ -775,6 +776,7 @@ class PDFDocument:
         self.info = []
         self.catalog: Dict[str, Any] = {}
         self.encryption: Optional[Tuple[Any, Any]] = None
+        self._encrypt_objid: Optional[int] = None
         self.decipher: Optional[DecipherCallable] = None
         self._parser = None
         self._cached_objs: Dict[int, Tuple[object, int]] = {}
@@ -812,6 +814,10 @@ class PDFDocument:
                     # https://github.com/pdfminer/pdfminer.six/issues/594
                     id_value = (b"", b"")
                 self.encryption = (id_value, dict_value(trailer["Encrypt"]))
+                if isinstance(trailer["Encrypt"], PDFObjRef):
+                    # the strings of the encryption dictionary are not
+                    # encrypted (ISO 32000-1 7.6.1)
+                    self._encrypt_objid = trailer["Encrypt"].objid
                 self._initialize_password(password)
             if "Info" in trailer:
                 self.info.append(dict_value(trailer["Info"]))
@@ -1003,6 +1009,10 @@ class PDFDocument:
                         ):
                             # cross-reference streams are never encrypted
                             obj.decipher = None
+                        elif objid == self._encrypt_objid:
+                            # nor is the encryption dictionary: read again
+                            # (caching off), it must stay what it was
+                            pass
                         elif self.decipher:
                             obj = decipher_all(self.decipher, objid, genno, obj)
 
